@@ -47,10 +47,13 @@ Perm3 == {<<"m1", "m2", "m3">>, <<"m1", "m3", "m2">>, <<"m2", "m1", "m3">>, <<"m
 TyD(n, k, items, members, base) == [name |-> n, k |-> k, items |-> items, members |-> members, base |-> base]
 ChainTypes(of, p) ==
   << CASE of = "simple" -> TyD(p[1], "simple", <<>>, <<>>, T("REAL"))
-       [] of = "enum"   -> TyD(p[1], "enum", <<"x1", "x2">>, <<>>, T(""))
+       [] of \in {"enum", "enumsel"} -> TyD(p[1], "enum", <<"x1", "x2">>, <<>>, T(""))
        [] of = "select" -> TyD(p[1], "select", <<>>, <<"lab", "cnt">>, T("")),
      TyD(p[2], IF of = "simple" THEN "simple" ELSE "rename", <<>>, <<>>, T(p[1])),
-     TyD(p[3], IF of = "simple" THEN "simple" ELSE "rename", <<>>, <<>>, T(p[2])) >>
+     \* "enumsel": the third type is a select that reaches the renamed enumeration (the generator orders enumerations,
+     \* their renames and the selects that use them in passes that depend on the hash order of the names)
+     IF of = "enumsel" THEN TyD(p[3], "select", <<>>, <<p[2], "lab">>, T(""))
+     ELSE TyD(p[3], IF of = "simple" THEN "simple" ELSE "rename", <<>>, <<>>, T(p[2])) >>
 AggTypes ==
   << TyD("arr_p", "aggr", <<>>, <<>>, AggF("ARRAY", 0, 2, "INTEGER", FALSE, FALSE)),
      TyD("arr_o", "aggr", <<>>, <<>>, AggF("ARRAY", 0, 2, "INTEGER", FALSE, TRUE)),
@@ -115,7 +118,7 @@ Valid0(c) ==
                    ELSE <<A("g1", T("REAL"), TRUE)>>))],
    funcs |-> IF c.rules THEN <<[name |-> "f1", nparams |-> 1]>> ELSE <<>>,
    aux |-> c.aux]
-TypeShapes(deep) == {[k |-> "aggs"]} \cup {[k |-> "chain", of |-> o, names |-> p] : o \in {"simple", "enum", "select"},
+TypeShapes(deep) == {[k |-> "aggs"]} \cup {[k |-> "chain", of |-> o, names |-> p] : o \in {"simple", "enum", "select", "enumsel"},
                                                    p \in (IF deep THEN Perm3 ELSE {<<"m1", "m2", "m3">>, <<"m3", "m1", "m2">>, <<"m2", "m3", "m1">>})}
 (* identifiers that are keywords or well-known names of the target languages (C++, Python) or of Part 21 but     *)
 (* ordinary identifiers of EXPRESS (choice field nm; applied to a schema without expression texts)                *)
